@@ -167,7 +167,7 @@ func c13Scenario(c *choice.Ctx, rep *report.R, minK, maxK int, rich bool, fullSe
 			wait()
 		}
 	}
-	time.Sleep(7 * time.Second)
+	hsleep(7 * time.Second)
 	wait()
 	if stallWrites {
 		for len(tcpImpl.Parked()) > 0 {
